@@ -278,6 +278,15 @@ def set_to_seq(ex, sset, st):
     return SSeq(m, lambda q: r(num_term(q)), 'int')
 
 
+def np_isscalar(ex, args, kw, st):
+    v = args[0]
+    if is_num(v) or isinstance(v, (bool, int, float, str, SStr)):
+        return True
+    if isinstance(v, (SArr, SSeq, SBag, tuple, list, dict, SObj)) or v is None:
+        return False
+    raise Unsupported('np.isscalar of this value')
+
+
 def p_sorted(ex, args, kw, st):
     """sorted(S) for a finite set of integers: its members in strictly increasing order."""
     if kw or len(args) != 1 or not isinstance(args[0], SSet):
@@ -1156,7 +1165,7 @@ TABLE = {
     'int': p_int, 'float': p_float, 'bool': p_bool, 'abs': p_abs, 'np.abs': p_abs,
     'np.fabs': p_abs, 'fabs': p_abs, 'math.fabs': p_abs,
     'min': p_min, 'max': p_max, 'len': p_len, 'isinstance': p_isinstance, 'slice': p_slice,
-    'tuple': p_tuple, 'list': p_list, 'set': p_set, 'sorted': p_sorted, 'np.insert': np_insert, 'zip': p_zip, 'range': p_range, 'enumerate': p_enumerate,
+    'tuple': p_tuple, 'list': p_list, 'set': p_set, 'sorted': p_sorted, 'np.insert': np_insert, 'np.isscalar': np_isscalar, 'zip': p_zip, 'range': p_range, 'enumerate': p_enumerate,
     'sum': p_sum, 'all': p_all_py, 'any': p_any_py, 'round': p_round_unsupported,
     'math.sqrt': p_sqrt, 'np.sqrt': p_sqrt, 'sqrt': p_sqrt,
     'math.sin': p_sin, 'np.sin': p_sin, 'sin': p_sin,
